@@ -56,10 +56,12 @@ type hostileDesc struct {
 }
 
 // ---------- generators ----------
+var bigMax = 14 // quick tier; 40 in the thorough tier
+
 func randMesh(r *hx.Rng, tris bool, uv bool, big bool) modeling.Mesh {
 	nv := r.Range(1, 6)
 	if big {
-		nv = r.Range(4, 40)
+		nv = r.Range(4, bigMax)
 	}
 	pos := make([]vector3.Float64, nv)
 	nrm := make([]vector3.Float64, nv)
@@ -76,7 +78,7 @@ func randMesh(r *hx.Rng, tris bool, uv bool, big bool) modeling.Mesh {
 	if tris {
 		nt := r.Range(0, 4)
 		if big {
-			nt = r.Range(2, 30)
+			nt = r.Range(2, bigMax)
 		}
 		idx := make([]int, 3*nt)
 		for i := range idx {
@@ -231,6 +233,8 @@ func genRefPly(r *hx.Rng, big bool) (fileDesc, bool) {
 
 const nKinds = 8
 
+var spzSeq = 0
+
 func genFile(r *hx.Rng, which int, big bool) (fileDesc, bool) {
 	var buf bytes.Buffer
 	switch which {
@@ -315,10 +319,15 @@ func genFile(r *hx.Rng, which int, big bool) (fileDesc, bool) {
 		}
 		return fileDesc{Format: "splat", Hex: hex.EncodeToString(buf.Bytes())}, true
 	case 6: // spz, independent encoder from the published layout: v1 (half floats) / v2 (24-bit fixed), degree 0-3
-		ver := r.Range(1, 2)
-		deg := r.Range(0, 3)
+		// every (version, degree) pair in turn; the stored (uncompressed) level maps compressed cuts 1:1 to plaintext cuts
+		ver := 1 + spzSeq%2
+		deg := (spzSeq / 2) % 4
+		spzSeq++
 		shDim := []int{0, 3, 8, 15}[deg]
-		n := r.Range(0, 4)
+		n := r.Range(1, 4)
+		if r.Chance(1, 8) {
+			n = 0
+		}
 		if big {
 			n = r.Range(3, 24)
 		}
@@ -342,7 +351,7 @@ func genFile(r *hx.Rng, which int, big bool) (fileDesc, bool) {
 			}
 		}
 		raw.Write(body)
-		level := hx.Pick(r, []int{gzip.DefaultCompression, gzip.NoCompression, gzip.BestSpeed})
+		level := []int{gzip.NoCompression, gzip.DefaultCompression, gzip.BestSpeed}[(spzSeq-1)%3]
 		zw, _ := gzip.NewWriterLevel(&buf, level)
 		zw.Write(raw.Bytes())
 		zw.Close()
@@ -715,6 +724,9 @@ func main() {
 	run := hx.ParseFlags("C14", "Check.C14")
 	defer pl.close()
 	thorough := run.Tier == "thorough"
+	if thorough {
+		bigMax = 40
+	}
 	r := hx.NewRng(run.Seed)
 	for _, in := range run.Inputs() {
 		if in.Kind == "hostile" {
